@@ -19,8 +19,9 @@ def coef(S, sector, var_term, x, per='b'):
     return z3.simplify(z3.substitute(rhs, (x, x + 1)) - rhs)
 
 
-def work(plan):
-    su = Setup(plan)
+def work(item):
+    plan, order, tag = item
+    su = Setup(plan, order=order, order_tag=tag)
     rec = su.base_rec()
     if not su.ok or su.untranslatable:
         return rec
@@ -182,14 +183,15 @@ def run(tier, seed):
     chk.outside = ['more than 3 currencies', 'user-written FX sectors']
 
     def on_ob(rec, ob):
-        chk.ob(ob['verdict'], '%s %s' % (rec['plan'], ob['what']), distinct=(rec['plan'], ob['what']))
+        chk.ob(ob['verdict'], '%s %s' % (rec['plan'], ob['what']), distinct=(rec['plan'], rec['order_tag'], ob['what']))
         chk.sample({'topology': rec['plan'], 'obligation': ob['kind'], 'what': ob['what'], 'verdict': ob['verdict'],
                     'equations': rec['n_eq']})
         if ob['verdict'] == 'sat':
-            key = '%s:%s' % (rec['plan'], ob['what'])
-            src = EXACT_REPLAY_HEAD % dict(plan=rec['plan'], cex=ob['cex']) + ob['check'] + '\nsys.exit(1 if bad else 0)\n'
-            chk.violation(key, 'topology %s: %s fails' % (rec['plan'], ob['what']), src)
-    absorb(chk, pmap(work, plans), on_ob)
+            key = '%s:%s:%s' % (rec['plan'], rec['order_tag'], ob['what'])
+            src = EXACT_REPLAY_HEAD % dict(plan=rec['plan'], cex=ob['cex'], order=rec['order']) + ob['check'] + '\nsys.exit(1 if bad else 0)\n'
+            chk.violation(key, 'topology %s (declaration order: %s): %s fails' % (rec['plan'], rec['order_tag'], ob['what']), src)
+    from vf.zoolib import plan_orders
+    absorb(chk, pmap(work, plan_orders(plans, tier)), on_ob)
     for st, r in pmap(work_noext, noext_variants()):
         if st != 'ok':
             chk.harness_errors.append(r[:400])
